@@ -1070,7 +1070,7 @@ def build_cases(tier, seed):
             for oi, order in enumerate(orders):
                 sess = make_session(order)
                 add("fake_hook", loop, pop, sess, None)
-                if oi == 0 or tier != "quick" and oi < 3 or (tier == "quick" and loop in ("select", "asyncio")):
+                if oi == 0 or (tier != "quick" and oi < 3):
                     for inj in injections():
                         add("fake_hook", loop, pop, sess, inj)
             for _ in range(n_random):
